@@ -53,6 +53,13 @@ def run(ctx):
     ctx.alias = {'R5': 'R3'}
     c05.r5_subtoken_filter(ctx)
     ctx.alias = {}
+    # category selection x encoding: the basic encodings are the extended ones with the separators removed, for every selection
+    from . import c04
+    ctx.alias = {'R1': 'R4', 'R3': 'R4'}
+    sep_ = {'TOKEN_SEPARATOR': ctx.ce.module_const(N.TOKENS, 'TOKEN_SEPARATOR'), 'DECORATION_SEPARATOR': ctx.ce.module_const(N.TOKENS, 'DECORATION_SEPARATOR')}
+    c04.r1_plain_is_stripped_extended(ctx, sep_)
+    c04.r3_note_by_note(ctx, sep_)
+    ctx.alias = {}
 
 
 def r1_field_reads(ctx):
